@@ -41,3 +41,4 @@ def run(ctx, R):
     rvhsem.rule_ss_hsem(ctx, R)
     jit.rule_lw_value(ctx, R, 'rv64')
     rvhsem.rule_mem_hsem(ctx, R)
+    rvhsem.rule_dsoff(ctx, R)
